@@ -241,21 +241,26 @@ func runC15(ctx *core.Ctx) {
 			for si, s := range c15Schedules(cs, in) {
 				var got string
 				entry := ""
+				// the schedule is offered through a reader type with a varying set of extra methods
+				kind := (si/3 + i) % len(readerKindNames)
+				s := s
+				var src io.Reader = wrapReader(s, kind, func() int { return len(s.data) - s.pos })
+				lc["reader_kind:"+readerKindNames[kind]]++
 				switch si % 3 {
 				case 0:
 					entry = "SanitizeReader"
-					got = env.Pol.SanitizeReader(s).String()
+					got = env.Pol.SanitizeReader(src).String()
 				case 1:
 					entry = "SanitizeReaderToWriter(bytes.Buffer)"
 					var b bytes.Buffer
-					if err := env.Pol.SanitizeReaderToWriter(s, &b); err != nil {
+					if err := env.Pol.SanitizeReaderToWriter(src, &b); err != nil {
 						cs.Violate("C15:error:"+entry, fmt.Sprintf("%s returned %v under a fault-free schedule", entry, err), witness(map[string]interface{}{"schedule": fmt.Sprint(s.sizes)}))
 					}
 					got = b.String()
 				default:
 					entry = "SanitizeReaderToWriter(plain io.Writer)"
 					var b bytes.Buffer
-					if err := env.Pol.SanitizeReaderToWriter(s, plainWriter{&b}); err != nil {
+					if err := env.Pol.SanitizeReaderToWriter(src, plainWriter{&b}); err != nil {
 						cs.Violate("C15:error:"+entry, fmt.Sprintf("%s returned %v under a fault-free schedule", entry, err), witness(map[string]interface{}{"schedule": fmt.Sprint(s.sizes)}))
 					}
 					got = b.String()
@@ -284,7 +289,7 @@ func runC15(ctx *core.Ctx) {
 				}
 				if got != ref {
 					w := witness(map[string]interface{}{"schedule": fmt.Sprint(s.sizes), "eof_with_data": s.eofWithData, "got": core.Show(core.Clip(got, 3000)), "want": core.Show(core.Clip(ref, 3000))})
-					cs.Violate("C15:differs:"+entry, fmt.Sprintf("%s under schedule %v (eof with data: %v) differs from Sanitize: %q vs %q; input=%q", entry, core.Clip(fmt.Sprint(s.sizes), 80), s.eofWithData, core.Clip(got, 200), core.Clip(ref, 200), core.Clip(in, 200)), w)
+					cs.Violate("C15:differs:"+entry, fmt.Sprintf("%s (source offered as %s) under schedule %v (eof with data: %v) differs from Sanitize: %q vs %q; input=%q", entry, readerKindNames[kind], core.Clip(fmt.Sprint(s.sizes), 80), s.eofWithData, core.Clip(got, 200), core.Clip(ref, 200), core.Clip(in, 200)), w)
 				}
 			}
 			if heldBytes != nil {
@@ -302,6 +307,93 @@ func runC15(ctx *core.Ctx) {
 		}
 		cs.Flush(lc)
 	})
+
+	// giant tokens: one token of 64 KiB .. 1 MiB (text, attribute value, comment, raw text, tag soup),
+	// through every reader kind and a few coarse schedules
+	ctx.Run("giant-tokens", ctx.N(48, 240), func(cs *core.Case) {
+		r := cs.R
+		var env *Env
+		switch cs.Index % 3 {
+		case 0:
+			env = NewEnv([]spec.Op{{K: spec.KUGC}, {K: spec.KComments}})
+		case 1:
+			env = NewEnv(spec.CmdHTMLEmailOps())
+		default:
+			env = NewEnv([]spec.Op{{K: spec.KNew}, {K: spec.KAllowElements, Names: []string{"p", "b", "textarea"}}, {K: spec.KAllowAttrs, Attrs: []string{"title", "href"}, Scope: "global"}})
+		}
+		n := []int{65535, 65536, 65537, 70000, 100000, 131072, 131073, 262144 + r.Intn(5000), 1 << 20}[cs.Index/3%9]
+		if ctx.Quick() && n > 300000 {
+			n = 150000 + r.Intn(50000)
+		}
+		var in string
+		switch r.Intn(6) {
+		case 0:
+			in = "<p>" + strings.Repeat("x", n) + "</p>"
+		case 1:
+			in = `<p title="` + strings.Repeat("t", n) + `">x</p>`
+		case 2:
+			in = "<!--" + strings.Repeat("c", n) + "--><b>after</b>"
+		case 3:
+			in = "<textarea>" + strings.Repeat("<b>", n/3) + "</textarea><b>z</b>"
+		case 4:
+			in = "<b>lead</b>" + strings.Repeat("&amp;", n/5) + "<b>tail</b>"
+		default:
+			in = "<p " + strings.Repeat("a=b ", n/4) + ">x</p>"
+		}
+		lc := core.LocalCounts{}
+		ref := env.Pol.Sanitize(in)
+		cs.Eval()
+		if got := string(env.Pol.SanitizeBytes([]byte(in))); got != ref {
+			cs.Violate("C15:differs:SanitizeBytes", fmt.Sprintf("SanitizeBytes differs from Sanitize on a %d-byte input with one giant token (%d vs %d bytes out)", len(in), len(got), len(ref)), map[string]interface{}{"policy": spec.Describe(env.Ops), "ops": env.Ops, "input_head": core.Show(core.Clip(in, 200)), "input_length": len(in)})
+		}
+		for kind := range readerKindNames {
+			for sched := 0; sched < 3; sched++ {
+				var sizes []int
+				switch sched {
+				case 1:
+					for left := len(in); left > 0; left -= 4096 {
+						sizes = append(sizes, 4096)
+					}
+				case 2:
+					for left := len(in); left > 0; {
+						k := 1 + r.Intn(30000)
+						sizes = append(sizes, k)
+						left -= k
+					}
+				}
+				s := &schedReader{data: []byte(in), sizes: sizes, eofWithData: sched == 2}
+				src := wrapReader(s, kind, func() int { return len(s.data) - s.pos })
+				var got, entry string
+				if (kind+sched)%2 == 0 {
+					entry = "SanitizeReader"
+					got = env.Pol.SanitizeReader(src).String()
+				} else {
+					entry = "SanitizeReaderToWriter(bytes.Buffer)"
+					var b bytes.Buffer
+					if err := env.Pol.SanitizeReaderToWriter(src, &b); err != nil {
+						cs.Violate("C15:error:"+entry, fmt.Sprintf("%s (source offered as %s) returned %v on a fault-free %d-byte input with one giant token", entry, readerKindNames[kind], err, len(in)), map[string]interface{}{"policy": spec.Describe(env.Ops), "ops": env.Ops, "input_head": core.Show(core.Clip(in, 200)), "input_length": len(in)})
+					}
+					got = b.String()
+				}
+				cs.Eval()
+				lc["giant_token_runs"]++
+				if got != ref {
+					cs.Violate("C15:differs:"+entry, fmt.Sprintf("%s (source offered as %s) differs from Sanitize on a %d-byte input with one giant token: %d vs %d bytes out", entry, readerKindNames[kind], len(in), len(got), len(ref)),
+						map[string]interface{}{"policy": spec.Describe(env.Ops), "ops": env.Ops, "input_head": core.Show(core.Clip(in, 200)), "input_length": len(in), "reader_kind": readerKindNames[kind]})
+				}
+			}
+		}
+		// the standard library's own readers
+		for k, src := range []io.Reader{strings.NewReader(in), bytes.NewReader([]byte(in)), bytes.NewBufferString(in)} {
+			if got := env.Pol.SanitizeReader(src).String(); got != ref {
+				cs.Violate("C15:differs:SanitizeReader", fmt.Sprintf("SanitizeReader over standard reader #%d differs from Sanitize on a %d-byte input with one giant token", k, len(in)), map[string]interface{}{"policy": spec.Describe(env.Ops), "ops": env.Ops, "input_head": core.Show(core.Clip(in, 200)), "input_length": len(in)})
+			}
+			cs.Eval()
+		}
+		cs.Nontrivial(core.Hash("giant", fmt.Sprint(cs.Index)))
+		cs.Flush(lc)
+	})
+	ctx.Floor("giant_token_runs", 500)
 
 	// cmd tools -------------------------------------------------------------------
 	bin := os.Getenv("VERIF_CMD_BIN")
